@@ -59,15 +59,23 @@ class World:
             _table_ = 'tr'
             id = PrimaryKey(int)
             b = Optional(Base, column='b_id')
+            qs = Set('Q')
+
+        class Q(db.Entity):         # reaches R as an unloaded reference: R[k].b is then read from a holder that is not loaded
+            _table_ = 'tq'
+            id = PrimaryKey(int)
+            r = Optional(R, column='r_id')
 
         self.cls = {'Base': Base, 'S1': S1, 'S2': S2, 'S12': S12, 'S3': S3}
         self.R = R
+        self.Q = Q
         db.bind('sqlite', path, create_db=True)
         db.generate_mapping(create_tables=True)
 
     def reset(self):
         self.db.disconnect()
         con = sqlite3.connect(self.path, isolation_level=None)
+        con.execute('DELETE FROM tq')
         con.execute('DELETE FROM tr')
         con.execute('DELETE FROM tbase')
         con.close()
@@ -102,7 +110,7 @@ def execute(w, st, ev, rng):
         return 'ok', set(), '-'
     if op == 'Create':
         o = w.cls[c](id=k)
-        w.R(id=k, b=o)
+        w.Q(id=k, r=w.R(id=k, b=o))
         return 'ok', set(), check_obj(w, st, o)
     if op in ('SelAll', 'IsInst'):
         C = w.cls[c]
@@ -138,16 +146,19 @@ def execute(w, st, ev, rng):
             return 'ok', {0}, '-'
         return 'ok', {1}, check_obj(w, st, o)
     if op == 'RefClass':
-        r = w.R[k]
+        # the holder of the reference is itself loaded (R[k]) or only known as a reference (Q[k].r)
+        r = w.R[k] if rng.randrange(2) else w.Q[k].r
         o = r.b
         if o is None:
             return 'ok', {0}, '-'
+        first = type(o).__name__          # the class must be right at once, before anything else touches the object
         form = rng.randrange(3)
         if form == 0:
             o.v            # touching an attribute loads the seed
         elif form == 1:
             o.load()
-        return 'ok', {1}, check_obj(w, st, o)
+        name = check_obj(w, st, o)
+        return 'ok', {1}, (name if first == name else '%s-then-%s' % (first, name))
     raise MachineryError('unknown action ' + op)
 
 
@@ -165,6 +176,11 @@ def run_walk(w, nodes, succ, init, rng, max_steps, visited):
             if not acts:
                 break
             keys = sorted(acts)
+            # first the kind of call (uniformly: the many parameter combinations of IsInst / Find would otherwise crowd out
+            # End, Begin and RefClass, and behaviours that end a session and meet its objects again as references would
+            # be rare), then among the calls of that kind one not yet taken from this state
+            kind = rng.choice(sorted(set(k[0] for k in keys)))
+            keys = [k for k in keys if k[0] == kind]
             fresh = [k for k in keys if any((u, v) not in visited for v in acts[k])]
             key = rng.choice(fresh if fresh and rng.random() < 0.8 else keys)
             ev0 = nodes[acts[key][0]]['ev']
